@@ -12,7 +12,7 @@ ID = "C08"
 LEAN_TARGETS = ['OdxVerif.Props.C08', 'OdxVerif.Props.C08Struct']
 DRIVERS = ["drv_codec"]
 THEOREMS = ["OdxVerif.Codec." + t for t in ['C08_static_length_partial', 'C08_required_omission_fails', 'C08_condensed_counterexample', 'C08_nested_cursor_counterexample', 'staticLen_encAll', 'encodeParams_missing',
-                                             'C08_static_length_struct_partial', 'C08_static_value_struct', 'C08_required_struct_partial', 'C08_empty_struct_counterexample',
+                                             'C08_static_length_struct_partial', 'C08_static_value_struct', 'C08_required_struct_partial', 'C08_const_not_required_partial', 'C08_empty_struct_counterexample',
                                              'static_length_tree', 'Trees.enc_length', 'Trees.static_eq']]
 RULE = ("well-formed descriptions (harness/odxgen/gen.py: corpus, every BYTE-SIZE structure size x offset, enumerated standard-length DOPs at every "
         "bit position, condensed/plain bit masks, random composites of the full envelope) x accepted value assignments: static length of the "
